@@ -15,6 +15,7 @@ package sdf
 
 import (
 	"fmt"
+	"sync"
 
 	v2 "github.com/deadsy/sdfx/vec/v2"
 )
@@ -24,6 +25,7 @@ import (
 // CacheSDF2 is an SDF2 cache.
 type CacheSDF2 struct {
 	sdf         SDF2
+	mu          sync.Mutex // guards cache, reads and hits: the renderers call Evaluate from many goroutines
 	cache       map[v2.Vec]float64
 	reads, hits uint
 }
@@ -37,12 +39,16 @@ func Cache2D(sdf SDF2) SDF2 {
 }
 
 func (s *CacheSDF2) String() string {
+	s.mu.Lock()
+	defer s.mu.Unlock()
 	r := float64(s.hits) / float64(s.reads)
 	return fmt.Sprintf("reads %d hits %d (%.2f)", s.reads, s.hits, r)
 }
 
 // Evaluate returns the minimum distance to a cached 2d sdf.
 func (s *CacheSDF2) Evaluate(p v2.Vec) float64 {
+	s.mu.Lock()
+	defer s.mu.Unlock()
 	s.reads++
 	if d, ok := s.cache[p]; ok {
 		s.hits++
